@@ -367,3 +367,44 @@ def run(ctx):
             chk.violation("R15.3", "occurrences", "the occurrence list is not the list of the nodes' variable indices", loc(b["span"]))
     else:
         chk.violation("R15.3", "occurrences", "the occurrence list is not collected from the nodes in order: %s" % occ_term[:140], loc(b["span"]))
+
+    moved_not_cloned(chk, fb, b)
+
+
+def moved_not_cloned(chk, fb, b, RID="R15.4"):
+    """R15.4: once the per-node step has produced the operand values (moved or cloned according to R15.1) the reduction engine
+    must not clone them again: a value that occurs once would be cloned after all."""
+    from analysis.callgraph import CallGraph
+    chk.rule(RID, "the reduction engine behind the consuming evaluator (eval_numbers, eval_binary) never clones an operand value: operands are moved out of the number vector")
+    cg = CallGraph(fb)
+    red = [p for p in fb.bodies if p == "expression::eval_binary" or p.endswith("::eval_binary")]
+    if len(red) != 1:
+        chk.violation(RID, "anchor", "eval_binary not found")
+        return
+    red = red[0]
+    # functions on a call chain consuming evaluator -> .. -> eval_binary
+    reach_red = set()
+    for p in fb.bodies:
+        if "{closure" in p:
+            continue
+        if p == red or red in cg.reachable([p]):
+            reach_red.add(p)
+    engine = {p for p in cg.reachable([b["path"]]) if p in reach_red and p != b["path"]}
+    engine.add(red)
+    n = 0
+    for p in sorted(engine):
+        bd = fb.bodies.get(p)
+        if bd is None:
+            continue
+        gen = {g for g in ("T",)}
+        for bi, t in mir.calls(bd):
+            cp = mir.callee_path(t) or ""
+            if not cp.endswith("Clone::clone") or not t["args"]:
+                continue
+            ty = (t["args"][0].get("place") or {}).get("ty") or t["args"][0].get("ty") or ""
+            if ty.strip() in ("&T", "&mut T"):
+                chk.violation(RID, "clone:%s" % p, "%s clones an operand value (%s): a variable that occurs once is cloned after all instead of being moved through the reduction" % (p, ty), loc(t["span"]))
+        takes = sum(1 for bi, t in mir.calls(bd) if (mir.callee_path(t) or "").endswith("mem::take"))
+        n += takes
+    chk.floor(RID, "operands moved out with mem::take in the reduction engine", n, 2)
+    chk.ok(RID, "no operand clone in the reduction engine", ", ".join(sorted(engine)), loc(fb.bodies[red]["span"]))
